@@ -1194,6 +1194,8 @@ class Interp:
 
     def s_For(self, s, fr):
         it = self.eval(s.iter, fr)
+        if isinstance(it, SymObj) and '__iter__' in _mro_dict(it.cls) and not hasattr(it, 'seq_len'):
+            it = self.call(_mro_dict(it.cls)['__iter__'], [it], {}, s)      # iter(obj): the class's __iter__ (contract or body)
         spec = self.loop_spec_for(s, fr)
         if spec is not None and not self.unroll:
             return self.loop_with_spec(s, fr, spec, iterable=it)
